@@ -137,6 +137,14 @@ class Profile(Lower):
                 return 'c_divd(%s, %s)' % (self.expr(args[0]), self.expr(args[1]))
             if op == 'operator*' and self.is_cplx(args[0]) and self.is_double(args[1]):
                 return 'c_scale(%s, %s)' % (self.expr(args[0]), self.expr(args[1]))
+        if op in ('operator==', 'operator!=') and self.is_cplx(args[0]):
+            neg = '!' if op == 'operator!=' else ''
+            if self.is_cplx(args[1]):
+                return '(%sc_eq(%s, %s))' % (neg, self.expr(args[0]), self.expr(args[1]))
+            if self.is_double(args[1]):
+                return '(%sc_eqd(%s, %s))' % (neg, self.expr(args[0]), self.expr(args[1]))
+        if op == 'operator-' and self.is_cplx(args[0]) and len(args) == 2 and self.is_cplx(args[1]):
+            return 'c_sub(%s, %s)' % (self.expr(args[0]), self.expr(args[1]))
         if op == 'operator+' and self.ct(n) == 'bl_str':
             return self.str_expr(n)
         if op == 'operator()' and t0 == 'bl_urd':
@@ -176,8 +184,12 @@ class Profile(Lower):
             return 'c_exp(%s)' % self.expr(args[0])
         if name == 'norm' and self.is_cplx(args[0]):
             return 'c_norm(%s)' % self.expr(args[0])
-        if name in ('min', 'max') and self.ct(args[0]) == 'int':
+        if name in ('min', 'max') and self.ct(args[0]) in ('int', 'size_t', 'long', 'double', 'unsigned int'):
             return 'BL_%s(%s, %s)' % (name.upper(), self.expr(args[0]), self.expr(args[1]))
+        if name == 'abs' and self.is_cplx(args[0]):
+            return 'c_abs(%s)' % self.expr(args[0])
+        if name in ('abs', 'fabs') and self.is_double(args[0]):
+            return 'D_ABS(%s)' % self.expr(args[0])
         if name == 'swap' and self.is_cplx(args[0]):
             return 'c_swap(&%s, &%s)' % (self.expr(args[0]), self.expr(args[1]))
         return super().call_named(n, name, args)
@@ -672,14 +684,18 @@ def replay_counterexample(pu, h, label, failure, work, tier, seed):
             break
     cands = []
     if n is not None and 1 <= n <= 10:
-        cands.append((n, q, t))
-    # small-n neighbourhood preserving the structure of the counterexample (equal operands, range side)
-    for nn in (2, 3, 4):
-        qq = q if 0 <= q < nn else (-1 if q < 0 else nn if (n is not None and q >= n) else q % nn)
-        tt = qq if (fn == 'cx' and q == t) else (t if 0 <= t < nn else (t % nn if t > 0 else 0))
-        if fn == 'cx' and q != t and qq == tt:
-            tt = (qq + 1) % nn
-        cands.append((nn, qq, tt))
+        cands += [(n, q, t), (n - 1, q, t), (n + 1, q, t)]
+    if fn == 'allocateQubit':
+        cands += [(k, 0, 0) for k in range(1, 12)]
+    # small-n neighbourhood: every operand choice for n = 1..5 (a loop-invariant counterexample is a
+    # havocked mid-loop state, so the structure of the trace alone is not a reliable input)
+    for nn in (2, 3, 4, 5, 1):
+        for qq in list(range(0, nn)) + [-1, nn]:
+            if fn == 'cx':
+                for tt in range(0, nn):
+                    cands.append((nn, qq, tt))
+            else:
+                cands.append((nn, qq, 0))
     ob = _build_oracle(pu['wd'])
     tried = []
     for (nn, qq, tt) in cands:
@@ -688,11 +704,12 @@ def replay_counterexample(pu, h, label, failure, work, tier, seed):
             rc, out, dt = _nat.run(cmd, timeout=300)
             tried.append(' '.join(cmd[1:]))
             fails = [ln for ln in out.split('\n') if ln.startswith('FAIL ')]
-            same = [ln for ln in fails if ('label=' + label + ' ') in ln]
+            same = [ln for ln in fails if label and ('label=' + label + ' ') in ln]
             pick = same or [ln for ln in fails if ('label=' + fn + '.') in ln]
             if pick:
                 sig = 'op=%s%s' % (fn, ' control==target' if (fn == 'cx' and qq == tt) else '')
-                return dict(failing_input_found=True, failing_input=pick[0], signature=sig, native_failures=fails[:10],
+                m = re.search(r'label=(\S+)', pick[0])
+                return dict(failing_input_found=True, failing_input=pick[0], signature=sig, native_failures=fails[:10], oracle_label=m.group(1) if m else None,
                             reproduce_args=cmd[1:], reproduce='bin/check %s --replay <this file>   (rebuilds native/sim_oracle.cpp against /repo and runs: sim_oracle %s)' % ('<property>', ' '.join(cmd[1:])),
                             replay_inputs_tried=tried, matched_same_obligation=bool(same))
     return dict(failing_input_found=False, signature='op=%s' % fn, replay_inputs_tried=tried,
